@@ -96,6 +96,26 @@ def GcWorkerPresent (o : Obs) : Prop := ∃ r ∈ o.after, r.id = o.gcWorker ∧
 def ExpiredGone (o : Obs) : Prop :=
   (∀ r ∈ o.after, o.now ≤ r.exp) ∧ (o.ttl ≤ 0 → ∀ r ∈ o.after, r.id ≠ o.svc)
 
+/-- the garbage collector's own registration is never removed: by no request of any kind, through no interface -/
+def GcWorkerKept (gc : String) (before after : List Rec) : Prop :=
+  (∃ r ∈ before, r.id = gc) → ∃ r ∈ after, r.id = gc
+
+def chkKept (gc : String) (before after : List Rec) : Bool :=
+  !before.any (fun r => r.id == gc) || after.any (fun r => r.id == gc)
+
+theorem chkKept_iff (gc : String) (before after : List Rec) :
+    chkKept gc before after = true ↔ GcWorkerKept gc before after := by
+  unfold chkKept GcWorkerKept
+  simp only [Bool.or_eq_true, Bool.not_eq_true', List.any_eq_true, beq_iff_eq, List.any_eq_false]
+  constructor
+  · rintro (h | h) hb
+    · obtain ⟨r, hr, hid⟩ := hb; exact absurd hid (h r hr)
+    · exact h
+  · intro h
+    by_cases hb : ∃ r ∈ before, r.id = gc
+    · exact Or.inr (h hb)
+    · left; intro r hr hid; exact hb ⟨r, hr, hid⟩
+
 def SvcHolds (o : Obs) : Prop :=
   MinNotAboveLive o ∧ BelowMinNotRecorded o ∧ GcWorkerPresent o ∧ ExpiredGone o
 
